@@ -553,6 +553,23 @@ pub fn temp_targets(text: &str) -> Option<Vec<String>> {
     Some(v)
 }
 
+/// Temp targets (lexically resolved against the source's directory, here the base) that one source writes
+/// more than once with different contents: such a file is necessarily rewritten during every run.
+pub fn temp_targets_rewritten_in_run(text: &str) -> Vec<String> {
+    let mut by: std::collections::BTreeMap<String, std::collections::BTreeSet<Vec<String>>> = Default::default();
+    if let Ok(items) = Model::parse_with(text, true) {
+        for it in items {
+            if let Item::Dir { head, args, .. } = it {
+                if head.kind == Kind::Temp && !args.is_empty() {
+                    let key = resolve("", &args[0]).unwrap_or_else(|| args[0].clone());
+                    by.entry(key).or_default().insert(args[1..].to_vec());
+                }
+            }
+        }
+    }
+    by.into_iter().filter(|(_, v)| v.len() > 1).map(|(k, _)| k).collect()
+}
+
 /// Command menu of DESIGN 4.4: stdout / failure as a function of the command text
 pub fn std_cmd(cmd: &str, _dir: &str, lookup: &dyn Fn(&str) -> Option<Vec<u8>>) -> Result<String, String> {
     match cmd {
